@@ -1,6 +1,6 @@
 """C15 — interrupt events are never lost and the IRQ line means pending-and-enabled."""
-import itertools
-from explore import Job, run_jobs, generic_search, replay_with_monitor
+import itertools, signal
+from explore import Job, run_jobs, generic_search, replay_with_monitor, Disagreement
 import c15lib as L
 from migen import Signal
 from migen.genlib.record import Record
@@ -59,8 +59,8 @@ def mk_uart(txd, rxd, dw, rx_we=False, ordering="big"):
             return (ids.index(id(core._rxtx)), 0, 0, 1)
         return None
 
-    return L.ClientInst("UART(tx%d,rx%d%s)" % (txd, rxd, ",rx_we" if rx_we else ""), core, ["r", "r"], dw,
-                        [core.sink.valid, core.sink.data, core.source.ready], gen_stim, gen_bus, ordering)
+    return L.UartInst("UART(tx%d,rx%d%s)" % (txd, rxd, ",rx_we" if rx_we else ""), core, dw,
+                      [core.sink.valid, core.sink.data, core.source.ready], gen_stim, gen_bus, rx_we, ordering)
 
 
 def mk_gpio(npads, dw, tristate=False, ordering="big"):
@@ -112,6 +112,11 @@ def jobs(tier):
     for k in K:
         for dw in (8, 32):
             A(lambda k=k, dw=dw: L.EvInst([k], dw))
+    # ---- bank on another page; attach order / attribute names / default-argument constructors differing from the
+    #      creation order (bit order = creation order)
+    A(lambda: L.EvInst(["r"], 8, page=3, tag="/page3"))
+    A(lambda: L.EvInst(["f", "p"], 32, page=5, variant=True, reads=False, extra=False, en_masks=[0, 1, 2],
+                       tag="/page5/reversed names+attach order, default edge"))
     # ---- two sources: every clear mask x every enable mask x every trigger vector
     #      quick: four mixes covering every kind in both bit positions (three without read letters, one complete);
     #      thorough: all 16 ordered mixes with reads, both bus widths
@@ -150,16 +155,25 @@ def jobs(tier):
     # ---- mode B: bare managers, realistic sizes
     B(lambda: L.EvInst(rand_kinds(1, 3), 8, trigs=[0]))
     B(lambda: L.EvInst(rand_kinds(2, 8), 8, trigs=[0]))
+    B(lambda: L.EvInst(rand_kinds(10, 9), 8, trigs=[0], tag="/whole-register writes"))          # bus width + 1
+    B(lambda: L.EvInst(rand_kinds(11, 7), 8, "little", trigs=[0], variant=True, page=2, tag="/variant/page2"))
     B(lambda: L.EvInst(rand_kinds(3, 12), 8, trigs=[0], tag="/whole-register writes"))
     B(lambda: L.EvInst(rand_kinds(3, 12), 8, trigs=[0], disciplined=False, tag="/single-word writes"), with_monitor=False)
     big = dict(cycles=3000 if quick else 10000)       # many sources: slower steps
     B(lambda: L.EvInst(rand_kinds(4, 20), 8, "little", trigs=[0], tag="/whole-register writes"), **big)
     B(lambda: L.EvInst(rand_kinds(5, 32), 32, trigs=[0]), **big)
-    B(lambda: L.EvInst(rand_kinds(6, 35), 32, trigs=[0], tag="/whole-register writes"), **big)
+    B(lambda: L.EvInst(rand_kinds(6, 33), 32, trigs=[0], tag="/whole-register writes"), **big)   # bus width + 1
     if not quick:
+        B(lambda: L.EvInst(rand_kinds(12, 35), 32, trigs=[0], tag="/whole-register writes"), **big)
         B(lambda: L.EvInst(rand_kinds(6, 35), 32, "little", trigs=[0], disciplined=False, tag="/single-word writes"),
           with_monitor=False, **big)
     B(lambda: L.SharedInst([rand_kinds(7, 3), rand_kinds(8, 4), rand_kinds(9, 2)], 8))
+    # ---- the way an SoC builds it: peripherals as attributes, CSRBankArray + address map, Interconnect, SharedIRQ;
+    #      sources without name= (default field names)
+    B(lambda: L.GlueInst([list("pr"), list("lfp"), list("f")], [2, 5, 9], 8))
+    B(lambda: L.GlueInst([rand_kinds(13, 9), list("rl")], [1, 30], 8, "little"))
+    if not quick:
+        B(lambda: L.GlueInst([rand_kinds(14, 33), list("p"), list("fl")], [0, 3, 4], 32))
     # ---- mode B: clients with their real trigger logic
     B(lambda: mk_timer(8, 8))
     B(lambda: mk_timer(32, 32))
@@ -231,6 +245,24 @@ def run_corpus(ctx):
     return dis
 
 
+class InstanceTimeout(Exception):
+    pass
+
+
+def _on_alarm(signum, frame):
+    raise InstanceTimeout("instance did not finish within its time limit (hang or state explosion)")
+
+
+def timed(job, limit):
+    """Per-instance time limit (SIGALRM in the worker process): a hang while building or driving a changed
+    implementation ends as an exception, which the runner reports as a violation."""
+    def make():
+        signal.signal(signal.SIGALRM, _on_alarm)
+        signal.alarm(limit)
+        return job.make()
+    return Job(job.mode, make, **job.kw)
+
+
 def correspond(ctx):
     ctx.rule = ("one (state, letter) transition of the real EventManager+CSRBank netlist compared with the model; "
                 "non-trivial = a bus write, an active clear, a pending source or irq high in that cycle")
@@ -245,7 +277,17 @@ def correspond(ctx):
         "computes the triggers itself from the synchronised pads and the sampled mode/edge registers"]
     dis = run_corpus(ctx)
     ctx.jobs = jobs(ctx.tier)
-    d2, bad = run_jobs(ctx, ctx.jobs)
+    limit = 600 if ctx.tier == "quick" else 3000      # against hangs, far above the normal time
+    d2, bad = run_jobs(ctx, [timed(j, limit) for j in ctx.jobs])
+    signal.alarm(0)
+    # every mode-A instance terminates with the complete reachable product on the unchanged tree; an exploration
+    # that hits its state cap means the implementation's state space changed
+    for i in ctx.cov.instances:
+        if i.get("mode") == "A" and not i.get("exhaustive") and not any(d.inst_name == i["instance"] for d in d2):
+            d = Disagreement(None, [], 0, None, None, kind="exploration of %s did not terminate within %d states"
+                             % (i["instance"], i.get("states", 0)))
+            d.inst_name = i["instance"]
+            d2.append(d)
     return dis + d2
 
 
